@@ -37,8 +37,8 @@ class VmStackList(TlbScheme):
         builder = Builder()
         if len(data) == 0:
             return builder.end_cell()
-        value = data.pop()
-        builder.store_ref(cls.serialize(data))
+        value = data[-1]
+        builder.store_ref(cls.serialize(data[:-1]))
         return builder.store_cell(VmStackValue.serialize(value)).end_cell()
 
     @classmethod
@@ -175,8 +175,8 @@ class VmTuple(TlbScheme):
         if len(values) == 0:
             return Cell.empty()
         builder = Builder()
-        value = values.pop()
-        builder.store_cell(VmTupleRef.serialize(values))
+        value = values[-1]
+        builder.store_cell(VmTupleRef.serialize(VmTuple(values.list[:-1])))
         builder.store_ref(VmStackValue.serialize(value))
         return builder.end_cell()
 
